@@ -141,12 +141,12 @@ func c06Trees(w *fw.Worker) []*pt.Prog {
 	exprProgs := []string{
 		"a := [1 2 3]\nm := {for:1 end:2 a:3}\ns := \"héllo\"\nx:any\nx = a\nprint a[0] a[1:2] a[:1] a[1:] m.for m[\"end\"] s[1] s[1:3] x.([]num)[0] (len a) -a[0] !(a[0] > 1)\n",
 		"n := 1.0\nk := 007\nf := 1.50\nt := \"\\x41\\tb\\u00e9\"\nprint n k f t \"a\\\"b\" 2.\n",
-		"a := [[1 2] [3]]\na[0][1] = 5\nm := {a:{b:1}}\nm.a.b = 2\nm[\"a\"][\"c\"] = 3\nprint a m a[0][1]+m.a.b*2 (a[0][1] + m.a.b) * 2\n",
+		"a := [[1 2] [3]]\na[0][1] = 5\nm := {a:{b:1}}\nm.a.b = 2\nm[\"a\"][\"c\"] = 3\nprint a m a[0][1]+m.a.b*2 ((a[0][1] + m.a.b) * 2)\n",
 		"func add:num a:num b:num\n    return a + b\nend\nfunc none\n    return\nend\nfunc v:[]any xs:any...\n    return xs\nend\nnone\nprint (add 1 2) (add (add 1 2) 3) (v) (v 1 \"a\" [1]) (typeof (v))\n",
 		"x := 10\nif x > 5 and x < 20 or x == 0\n    print \"a\" x%3 x/2 x-1 x*2 -x\nelse if !(x >= 1) or x != 2 and x <= 3\n    print \"b\"\nelse\n    print \"c\"\nend\n",
 		"on key k:string\n    print k\nend\non down _:num y:num\n    print y\nend\non animate\n    print 1\nend\nprint \"top\"\n",
 		"arr:[]{}any\narr = [{a:1} {b:[1 2 {}]} {}]\nfor e := range arr\n    for k := range e\n        print k e[k]\n    end\nend\nfor i := range 1 10 3\n    print i\nend\nfor range 2\n    print \"x\"\nend\n",
-		"i := 0\nwhile i < 3\n    i = i + 1\n    if i == 2\n        break\n    end\nend\nprint i [1]+[2] [0]*3 []+[1] \"a\"+\"b\" \"a\"<\"b\" ([] == []) {} == {}\n",
+		"i := 0\nwhile i < 3\n    i = i + 1\n    if i == 2\n        break\n    end\nend\nprint i [1]+[2] [0]*3 []+[1] \"a\"+\"b\" \"a\"<\"b\" ([] == []) ({} == {})\n",
 		"test 1 1\ntest true\nprintf \"%v %s\\n\" 1 \"a\"\nr := read\nprint r (str2num \"1\") err errmsg (sprint 1 2) (join [1 2] \",\")\n",
 	}
 	// word operators in whitespace-sensitive positions (call arguments, array elements, map values, range arguments): built as trees,
@@ -163,15 +163,36 @@ func c06Trees(w *fw.Worker) []*pt.Prog {
 			pt.If{Conds: []pt.Expr{and, or}, Blocks: [][]pt.Stmt{{pt.Print(pt.S("p"))}, {pt.Print(pt.S("q"), mixed)}}},
 		}})
 	}
+	// ten block levels with a multi-line literal at the bottom: indentation is per level at every depth
+	{
+		inner := []pt.Stmt{pt.InferDecl{Name: "pts", X: pt.A(pt.V("g"), pt.N(1))}, pt.Print(pt.S("deep"), pt.V("pts"), pt.M("k", pt.A(pt.N(1), pt.N(2)), "j", pt.M()))}
+		for lvl := 0; lvl < 10; lvl++ {
+			switch lvl % 4 {
+			case 0:
+				inner = []pt.Stmt{pt.If{Conds: []pt.Expr{pt.Bin("<", pt.V("g"), pt.N(5))}, Blocks: [][]pt.Stmt{inner}, Else: []pt.Stmt{pt.Print(pt.S("else"), pt.N(float64(lvl)))}}}
+			case 1:
+				inner = []pt.Stmt{pt.For{Var: fmt.Sprint("i", lvl), Range: []pt.Expr{pt.N(1)}, Body: append([]pt.Stmt{pt.Print(pt.V(fmt.Sprint("i", lvl)))}, inner...)}}
+			case 2:
+				inner = []pt.Stmt{pt.While{Cond: pt.B(true), Body: append(inner, pt.Break{})}}
+			case 3:
+				inner = []pt.Stmt{pt.If{Conds: []pt.Expr{pt.B(false), pt.B(true)}, Blocks: [][]pt.Stmt{{pt.Print(pt.S("no"))}, inner}}}
+			}
+		}
+		out = append(out, &pt.Prog{Stmts: append([]pt.Stmt{pt.InferDecl{Name: "g", X: pt.N(0)}}, inner...)})
+	}
 	srcs := append(append([]string(nil), corpus.Seeds...), exprProgs...)
 	for _, s := range srcs {
-		prog, _, _ := run.Parse(s)
+		prog, errs, _ := run.Parse(s)
 		if prog == nil {
+			w.Internal("C06/C07: a hand-written source is not accepted by the parser: " + fmt.Sprint(errs) + "\n" + s)
 			continue
 		}
-		if p, err := astconv.Prog(prog); err == nil {
-			out = append(out, p)
+		p, err := astconv.Prog(prog)
+		if err != nil {
+			w.Internal("C06/C07: a hand-written source cannot be converted to a tree: " + err.Error() + "\n" + s)
+			continue
 		}
+		out = append(out, p)
 	}
 	return out
 }
@@ -251,7 +272,69 @@ func runLayouts(w *fw.Worker, id string) {
 			}
 		}, func(*fw.Ctx) bool { return !w.Expired() })
 	}
+	if id == "C07" {
+		// check mode over several files: exit status 0 exactly when every file is in formatted form; nothing is modified
+		kinds := []struct{ name, text string }{
+			{"good%d.evy", "x := 1\nprint x\n"},
+			{"bad%d.evy", "x:=1\nprint   x\n"},
+			{"good%d.txtar", "-- a.evy --\nx := 1\nprint x\n-- note.txt --\nkeep   me\n"},
+			{"bad%d.txtar", "-- a.evy --\nx := 1\nprint x\n-- b.evy --\ny:=2\nprint y\n"},
+		}
+		var seq func(prefix []int)
+		seq = func(prefix []int) {
+			if len(prefix) > 0 {
+				names, texts, allGood := []string{}, []string{}, true
+				for i, k := range prefix {
+					names = append(names, fmt.Sprintf(kinds[k].name, i))
+					texts = append(texts, kinds[k].text)
+					allGood = allGood && k%2 == 0
+				}
+				in := c07Input{Src: strings.Join(names, " ")}
+				w.Case("check-files\x00"+in.Src, func() *fw.Violation {
+					w.Nontrivial()
+					w.Count("check-mode-file-lists", 1)
+					_, code, after, err := runEvyFiles([]string{"fmt", "-c"}, names, texts)
+					if err != nil {
+						panic(err)
+					}
+					for i := range after {
+						if after[i] != texts[i] {
+							return &fw.Violation{Sub: "check-files", Signature: "fmt-check-modifies", What: "evy fmt -c modified a file", Input: in, Expected: texts[i], Observed: after[i]}
+						}
+					}
+					if (code == 0) != allGood {
+						return &fw.Violation{Sub: "check-files", Signature: "fmt-check-exit-status", What: "evy fmt -c over several files: exit status 0 exactly when every file is formatted", Input: in,
+							Expected: fmt.Sprint("all formatted=", allGood), Observed: fmt.Sprint("exit ", code)}
+					}
+					return nil
+				})
+			}
+			if len(prefix) == 3 {
+				return
+			}
+			for k := range kinds {
+				seq(append(append([]int(nil), prefix...), k))
+			}
+		}
+		seq(nil)
+	}
 	if id == "C06" {
+		// single-token damage: a stray token at the end of a line, or one punctuation token replaced by another. Most of these are
+		// rejected; whatever the parser ACCEPTS must survive formatting like any other accepted text (every token represented)
+		for _, s := range corpus.Seeds {
+			for _, m := range c06TokenMutants(s) {
+				m := m
+				w.Case("mut\x00"+m, func() *fw.Violation {
+					w.Nontrivial()
+					if prog, _, _ := run.Parse(m); prog == nil {
+						w.Count("damaged-rejected", 1)
+						return nil
+					}
+					w.Count("damaged-accepted", 1)
+					return checkC06(w, m)
+				})
+			}
+		}
 		// NUL bytes at token boundaries: accepted text is never dropped
 		for _, s := range corpus.Seeds {
 			toks := lexTexts(s)
@@ -261,6 +344,41 @@ func runLayouts(w *fw.Worker, id string) {
 			}
 		}
 	}
+}
+
+var c06Punct = []string{":", "=", ":=", ".", "...", "(", ")", "[", "]", "{", "}", "+", "-", "*", "/", "!", "==", "<"}
+
+// c06TokenMutants returns src with one stray token appended to a line, or one punctuation token replaced by another.
+func c06TokenMutants(src string) []string {
+	var out []string
+	lines := strings.Split(strings.TrimSuffix(src, "\n"), "\n")
+	for i, l := range lines {
+		if strings.TrimSpace(l) == "" {
+			continue
+		}
+		for _, tok := range []string{")", "]", "}", ") 1", "] print 2", "} x", "end", ": num", "= 1"} {
+			m := append([]string(nil), lines...)
+			m[i] = l + " " + tok
+			out = append(out, strings.Join(m, "\n")+"\n")
+		}
+	}
+	toks := lexTexts(src)
+	for i, t := range toks {
+		core := strings.TrimRight(t, " \t")
+		isPunct := false
+		for _, p := range c06Punct {
+			isPunct = isPunct || p == core
+		}
+		if !isPunct {
+			continue
+		}
+		for _, r := range c06Punct {
+			if r != core {
+				out = append(out, joinExcept(toks, i, []string{r + t[len(core):]}))
+			}
+		}
+	}
+	return out
 }
 
 func endLayout(labels []string, made []int) bool {
@@ -421,6 +539,27 @@ func checkC07(w *fw.Worker, in c07Input, cli bool) *fw.Violation {
 	f1, ok := format(in.Src)
 	if !ok {
 		return nil // C06 reports rejected layouts
+	}
+	// the same Program formatted repeatedly gives the same text each time (Format must not consume its own layout tables)
+	if prog, _, _ := run.Parse(in.Src); prog != nil {
+		var again [2]string
+		var gp string
+		func() {
+			defer func() {
+				if r := recover(); r != nil {
+					gp = fmt.Sprint(r)
+				}
+			}()
+			again[0] = prog.Format()
+			again[1] = prog.Format()
+			again[1] = prog.Format()
+		}()
+		if gp != "" {
+			return viol("format-again-gopanic", "Format panicked when applied again to the same Program", f1, gp)
+		}
+		if again[0] != f1 || again[1] != f1 {
+			return viol("format-again-differs", "Format applied repeatedly to the same Program gives different text", f1, again[0]+"\n----\n"+again[1])
+		}
 	}
 	f2, ok := format(f1)
 	if !ok {
